@@ -306,6 +306,29 @@ func checkReaderDiscipline(c *Ctx, p *packages.Package) {
 		c.Lost("R19.4", "the byte-level next method")
 		return
 	}
+	// roles by use: the cursor is the field next() increments with ++; the buffer is the []byte field it indexes
+	fwdName, bufName := "", ""
+	ast.Inspect(nextB.Body, func(n ast.Node) bool {
+		switch x := n.(type) {
+		case *ast.IncDecStmt:
+			if sel, ok := x.X.(*ast.SelectorExpr); ok && x.Tok == token.INC && fwdName == "" {
+				fwdName = sel.Sel.Name
+			}
+		case *ast.IndexExpr:
+			if sel, ok := x.X.(*ast.SelectorExpr); ok && bufName == "" {
+				if t, ok := info.TypeOf(x.X).Underlying().(*types.Slice); ok {
+					if b, ok := t.Elem().Underlying().(*types.Basic); ok && b.Kind() == types.Uint8 {
+						bufName = sel.Sel.Name
+					}
+				}
+			}
+		}
+		return true
+	})
+	if fwdName == "" || bufName == "" {
+		c.Lost("R19.4", "the cursor and the buffer of the byte-level next method")
+		return
+	}
 	// (a) sticky error first
 	first, ok := nextB.Body.List[0].(*ast.IfStmt)
 	sticky := false
@@ -440,7 +463,7 @@ func checkReaderDiscipline(c *Ctx, p *packages.Package) {
 			}
 			guardField := ""
 			ast.Inspect(ifs.Cond, func(m ast.Node) bool {
-				if s2, ok := m.(*ast.SelectorExpr); ok && s2.Sel.Name != "forward" && s2.Sel.Name != "buff" && s2.Sel.Name != latch {
+				if s2, ok := m.(*ast.SelectorExpr); ok && s2.Sel.Name != fwdName && s2.Sel.Name != bufName && s2.Sel.Name != latch {
 					if v, isVar := info.Uses[s2.Sel].(*types.Var); isVar && v.IsField() {
 						guardField = s2.Sel.Name
 					}
@@ -481,7 +504,7 @@ func checkReaderDiscipline(c *Ctx, p *packages.Package) {
 			return true
 		}
 		l, r := types.ExprString(b.X), types.ExprString(b.Y)
-		isWrap := func(x, y string) bool { return strings.HasSuffix(x, ".forward") && strings.HasPrefix(y, "len(") && strings.HasSuffix(y, ".buff)") }
+		isWrap := func(x, y string) bool { return strings.HasSuffix(x, "."+fwdName) && strings.HasPrefix(y, "len(") && strings.HasSuffix(y, "."+bufName+")") }
 		if !isWrap(l, r) && !isWrap(r, l) {
 			return true
 		}
@@ -491,7 +514,7 @@ func checkReaderDiscipline(c *Ctx, p *packages.Package) {
 				return false
 			}
 			sel, ok := as.Lhs[0].(*ast.SelectorExpr)
-			if !ok || sel.Sel.Name != "forward" {
+			if !ok || sel.Sel.Name != fwdName {
 				return false
 			}
 			tv, ok := info.Types[as.Rhs[0]]
@@ -598,17 +621,62 @@ func checkColumnBookkeeping(c *Ctx, p *packages.Package, set *skeletonSet) {
 		}
 		return ""
 	}
+	// roles by use, not by name: the column is the field of the receiver that Next resets to the constant 1; the stack that
+	// receives the column is the line stack, the other stack pushed in Next is the rune-size stack
+	colName, lineStack, sizeStack := "", "", ""
+	for _, b := range fn.Blocks {
+		for _, in := range b.Instrs {
+			if st, ok := in.(*ssa.Store); ok && isConstInt(st.Val, 1) {
+				if f := fieldOfAddr(st.Addr); f != "" {
+					colName = f
+				}
+			}
+		}
+	}
+	for _, b := range fn.Blocks {
+		for _, in := range b.Instrs {
+			ci, ok := in.(ssa.CallInstruction)
+			if !ok || methodNameOf(ci) != "Push" {
+				continue
+			}
+			target := ""
+			if u, ok := recvOf(ci).(*ssa.UnOp); ok {
+				target = fieldOfAddr(u.X)
+			}
+			args := ci.Common().Args
+			if u, ok := args[len(args)-1].(*ssa.UnOp); ok && colName != "" && fieldOfAddr(u.X) == colName {
+				lineStack = target
+			}
+		}
+	}
+	for _, b := range fn.Blocks {
+		for _, in := range b.Instrs {
+			ci, ok := in.(ssa.CallInstruction)
+			if !ok || methodNameOf(ci) != "Push" {
+				continue
+			}
+			if u, ok := recvOf(ci).(*ssa.UnOp); ok {
+				if t := fieldOfAddr(u.X); t != "" && t != lineStack {
+					sizeStack = t
+				}
+			}
+		}
+	}
+	if colName == "" || sizeStack == "" {
+		c.Lost("R19.4", "the column field and the rune-size stack of the emitted Next")
+		return
+	}
 	eventsOf := func(b *ssa.BasicBlock) []event {
 		var out []event
 		for _, in := range b.Instrs {
 			switch x := in.(type) {
 			case *ssa.Store:
-				if f := fieldOfAddr(x.Addr); f == "nextColumn" {
+				if f := fieldOfAddr(x.Addr); f == colName {
 					d := "other"
 					if k, ok := x.Val.(*ssa.Const); ok && isConstInt(k, 1) {
 						d = "reset"
 					} else if bo, ok := x.Val.(*ssa.BinOp); ok && bo.Op == token.ADD && isConstInt(bo.Y, 1) {
-						if u, ok := bo.X.(*ssa.UnOp); ok && fieldOfAddr(u.X) == "nextColumn" {
+						if u, ok := bo.X.(*ssa.UnOp); ok && fieldOfAddr(u.X) == colName {
 							d = "inc"
 						}
 					}
@@ -624,11 +692,12 @@ func checkColumnBookkeeping(c *Ctx, p *packages.Package, set *skeletonSet) {
 					args := x.Common().Args
 					arg := args[len(args)-1]
 					switch target {
-					case "runeSizes":
+					case sizeStack:
 						out = append(out, event{"size", ""})
-					case "lastColumns":
+					default:
+						// any other stack pushed in Next saves something for a line terminator: it must be the current column
 						d := "other"
-						if u, ok := arg.(*ssa.UnOp); ok && fieldOfAddr(u.X) == "nextColumn" {
+						if u, ok := arg.(*ssa.UnOp); ok && fieldOfAddr(u.X) == colName {
 							d = "column"
 						}
 						out = append(out, event{"save", d})
